@@ -471,6 +471,59 @@ def m_index(I, st, call):
     return None
 
 
+@model("core::slice::<impl [T]>::get", "core::slice::<impl [T]>::get_mut")
+def m_slice_get(I, st, call):
+    """checked indexing: Some(element / sub-slice) exactly when the index / range is within bounds, None otherwise"""
+    s = as_slice(I, st, call.args[0], call.arg_tys[0])
+    ix = call.args[1]
+    ity = call.arg_tys[1]
+    if s is None:
+        return None
+    ln = s.len
+    kind = ity[1] if ity and ity[0] == "adt" else None
+    dt = call.dest_ty
+    mut = call.path.endswith("get_mut")
+    if isinstance(ix, IntV):
+        out = []
+        s_no = st.copy()
+        s_no.add_fact(ix.aff - ln)
+        if not s_no.dead:
+            s_no.ghost[("inj", "checked-read-failed")] = "%s:%s" % (call.site.get("file"), call.site.get("line"))
+            out.append((s_no, mk_none(dt)))
+        st.add_fact(ln - ix.aff - 1)
+        if not st.dead:
+            et = pointee(dt[2][0]) if dt and dt[0] == "adt" and dt[2] else None
+            I.nsym += 1
+            key = ("h", "elem*%d" % I.nsym)
+            st.cells[key] = TopV(et)
+            out.append((st, mk_option(I, RefV(Place(key), mut), dt)))
+        return out
+    if isinstance(ix, StructV):
+        a = b = None
+        if kind == "core::ops::range::Range" and len(ix.fields) == 2:
+            a, b = ix.fields
+        elif kind == "core::ops::range::RangeTo" and len(ix.fields) == 1:
+            a, b = IntV(Aff.const(0), USIZE), ix.fields[0]
+        elif kind == "core::ops::range::RangeFrom" and len(ix.fields) == 1:
+            a, b = ix.fields[0], IntV(ln, USIZE)
+        if isinstance(a, IntV) and isinstance(b, IntV):
+            out = []
+            # out of bounds: start > end or end > len
+            for bad in (a.aff - b.aff - 1, b.aff - ln - 1):
+                s_no = st.copy()
+                s_no.add_fact(bad)
+                if not s_no.dead:
+                    # a checked read that failed: the range does lie outside the container on this path
+                    s_no.ghost[("inj", "checked-read-failed")] = "%s:%s" % (call.site.get("file"), call.site.get("line"))
+                    out.append((s_no, mk_none(dt)))
+            st.add_fact(b.aff - a.aff)
+            st.add_fact(ln - b.aff)
+            if not st.dead:
+                out.append((st, mk_option(I, SliceV(b.aff - a.aff, s.base, s.off + a.aff, s.mut), dt)))
+            return out
+    return None
+
+
 @model("core::slice::<impl [T]>::len", "core::str::<impl str>::len")
 def m_slice_len(I, st, call):
     s = as_slice(I, st, call.args[0], call.arg_tys[0])
